@@ -526,6 +526,9 @@ def _inplace(fn):
 
 
 METH["sqrt_"] = _inplace(_sqrt)
+for _nm, _op in (("add", ast.Add()), ("sub", ast.Sub()), ("mul", ast.Mult()), ("div", ast.Div())):
+    METH[_nm] = (lambda op: lambda I, t, o, **k: t._bin(I, op, o, False))(_op)
+    METH[_nm + "_"] = (lambda op: lambda I, t, o, **k: t.__vc_iop__(I, op, o))(_op)
 METH["clamp_min"] = lambda I, t, m: ST.ew(I, lambda x: ct.sc_max(x, m), t, dtype=t.dtype)
 METH["clamp_min_"] = _inplace(METH["clamp_min"])
 
